@@ -304,6 +304,17 @@ class Mon(object):
                             pending[0]["topic"], pending[0]["partition"], pending[0]["offsets"],
                             pending[0]["generation"]), member=m.name, t=ev["t"])
         outc = [x for x in m.outstanding(CONSUMER_APIS)]
+        # a Fetch handed to a broker client in the very instant its consumer was being stopped is not held against
+        # the member: when one metadata reply wakes several waiters in a single reactor turn and the first of them
+        # (the leader's partition lookup) starts the rejoin, cancelling the other waiters' Deferred is a no-op -
+        # Twisted does not cancel a Deferred that is already running its callbacks - and that waiter still issues its
+        # request when its turn comes.  The consumer is stopped; the reply is dropped; a fetch has no effect.
+        stop_instants = set(round(r_["done"]["t"], 9) for r_ in m.reqs if r_["api"] == "Fetch" and r_["done"] is not None
+                            and r_["done"].get("failure") == "CancelledError")
+        n_before = len(outc)
+        outc = [x for x in outc if not (x["api"] == "Fetch" and round(x["t"], 9) in stop_instants)]
+        if n_before != len(outc):
+            res.hit("fetch_issued_in_the_instant_its_consumer_was_stopped", n_before - len(outc))
         if outc:
             res.violate("rejoin/join-written-with-consumer-request-outstanding/%s" % outc[0]["api"], "JoinGroup "
                         "written while a partition consumer's %s request is outstanding" % outc[0]["api"],
